@@ -104,14 +104,18 @@ func scenarioC13B(x *runner.X) {
 		if err != nil {
 			continue
 		}
-		for _, s := range sigs {
-			ok, err := rd.Has(s)
-			if err != nil {
-				continue
-			}
-			if !ok {
-				if x.Failf("oracle", "a truncated sig-exists file reports a stored signature as absent", "cut at byte %d of %d (header parses from %d): prefix %x", k, len(full), lo, s[:2]) {
-					return
+		// twice through the same Reader: what an earlier failed lookup left behind in the reader
+		// must not turn a later one into "absent"
+		for round := 0; round < 2; round++ {
+			for _, s := range sigs {
+				ok, err := rd.Has(s)
+				if err != nil {
+					continue
+				}
+				if !ok {
+					if x.Failf("oracle", "a truncated sig-exists file reports a stored signature as absent", "cut at byte %d of %d (header parses from %d), lookup round %d: prefix %x", k, len(full), lo, round, s[:2]) {
+						return
+					}
 				}
 			}
 		}
